@@ -153,6 +153,12 @@ def rule_a(ctx, R, scan, uniform_arg):
             if pl["p"]:
                 continue
             ol = pl["l"]
+            for _ in range(4):      # a copy of the Option local (e.g. moved into a matched tuple) stands for the local itself
+                d_ = v.def_rvalue(ol)
+                if d_ is not None and d_["k"] == "use" and d_["op"]["k"] in ("copy", "move") and not d_["op"]["place"]["p"]:
+                    ol = d_["op"]["place"]["l"]
+                else:
+                    break
             tyi = ctx.facts.ty(scan.local_ty(ol)) or {}
             if tyi.get("k") != "adt" or not tyi["path"].endswith("option::Option"):
                 continue
@@ -232,8 +238,20 @@ def rule_b(ctx, R, sector, scan, uniform_arg):
     # return inside the loop
     loop_blocks = scan.reachable_from(some_t, avoid=frozenset([nbb]))
     rets = []
+
+    def pair_of(s):
+        """The (edge, graph) tuple a return statement hands back: built in place, or a local that is built once as a tuple."""
+        rv = s["rv"]
+        if rv["k"] == "aggregate" and rv["agg"] == "tuple":
+            return rv
+        if rv["k"] == "use" and rv["op"]["k"] in ("copy", "move") and not rv["op"]["place"]["p"]:
+            r_ = v.root(rv["op"])
+            d_ = v.rvalue_of(r_) if r_.kind == "local" else None
+            if d_ is not None and d_["k"] == "aggregate" and d_["agg"] == "tuple":
+                return d_
+        return None
     for bi, si, s in pat.stmts(scan):
-        if s["place"]["l"] == 0 and not s["place"]["p"] and bi in loop_blocks and s["rv"]["k"] == "aggregate" and s["rv"]["agg"] == "tuple":
+        if s["place"]["l"] == 0 and not s["place"]["p"] and bi in loop_blocks and pair_of(s) is not None:
             rets.append((bi, s))
     if len(rets) != 1:
         return ctx.lost("C06-b", "the single `return (edge, graph)` inside the scan loop (found %d)" % len(rets), fn)
@@ -269,7 +287,7 @@ def rule_b(ctx, R, sector, scan, uniform_arg):
     ctx.ob("C06-b", "return is on the TRUE edge of `cum_sum >= uniform` (%s)" % edge_desc, edge_ok, fn, "scan-ge-direction", where=pat.where(rs),
            detail="the statement says the first edge at which the running sum REACHES u is taken: expected cum_sum >= uniform (or uniform <= cum_sum), true edge; found %s" % edge_desc)
     # returned pair identity
-    ops = rs["rv"]["ops"]
+    ops = pair_of(rs)["ops"]
     e_root = v.root(ops[0])
     g_root = v.root(ops[1])
     loopvar = v.root_place({"l": nt["dest"]["l"], "p": []}).with_path(("as:Some", "0"))
@@ -552,7 +570,13 @@ def rule_f(ctx, R, sector, scan_site):
                         continue
                     if any(sx in doomed_reach for sx in succs[sb]):
                         conds.append((sb, t["discr"]["place"]["l"]))
+            # in the entry and in sample only decisions taken BEFORE the next stage is called lie on the way to the selection:
+            # a check after the sector routine has returned cannot stop an edge from being selected (other properties own it)
+            nxt = {id(entry): s, id(s): sector}.get(id(b))
+            stage_bbs = [bi_ for bi_, t_, cb_ in R.local_callees(b) if cb_ is nxt] if nxt is not None else []
             for sb, dl in conds:
+                if stage_bbs and not any(x in b.reachable_from(sb) for x in stage_bbs):
+                    continue
                 srcs = dd["close"](("n", dl, None))
                 tainted = sorted(set(str(x[:2]) for x in srcs if x[0] == "site" or (x[0] == "param" and x[1] in coord_params)))
                 if tainted:
